@@ -187,9 +187,9 @@ def model_main(args, libtable):
 def run_C09(chk, with_proof=True):
     build = vlib.build_repo("hooks")
     if with_proof:
-        chk.prove(["Properties_C09.v"])
+        chk.prove(["Properties_C09.v", "Properties_Code_Tool.v"])
         chk.cov["trusted_base"] = TRUSTED + [
-            "tools/srccode.py: test_matches_pattern(), context_name_of(), test_name_of() of tools/runner.c are translated whole into CLite programs on every run and run by the extracted interpreter against RunnerTool.item_matches on enumerated patterns and names (function-level correspondence, fnmatch modelled by glob)",
+            "Properties_Code_Tool.v: test_matches_pattern() with context_name_of() and test_name_of() of tools/runner.c, translated whole into a CLite program on every run (tools/srccode.py), is proved to return RunnerTool.item_matches for every pattern of bytes 1..255 and all names, to free its two copies and to touch nothing else (Fine: no access outside a block, no use after free); trusted in that link: the translator, CLite's models of strchr, string_dup, free and of fnmatch as glob (literals and '*' only, validated against fnmatch(3) by the correspondence run); the same program is also run by the extracted interpreter on enumerated patterns and names",
             "axioms: see coverage.print_assumptions"]
         import codetie
         codetie.matches(chk)
